@@ -6,6 +6,11 @@ import (
 	"strings"
 	"time"
 
+	"github.com/ipfs/go-cid"
+	"github.com/multiformats/go-multibase"
+	"github.com/multiformats/go-multicodec"
+	mh "github.com/multiformats/go-multihash"
+
 	"github.com/anyproto/any-sync/commonspace/object/tree/objecttree"
 	"github.com/anyproto/any-sync/commonspace/object/tree/treechangeproto"
 	"github.com/anyproto/any-sync/util/crypto"
@@ -251,6 +256,65 @@ func sortedKeys(m map[string]*parsed) []string {
 	return sortedCopy(ks)
 }
 
+// aliasId spells a hash of the same bytes differently: another multibase, another codec, another
+// hash function, CIDv0. None of them is THE content id (CIDv1, dag-cbor, sha2-256, base32 lower).
+func aliasId(kind int, body []byte) string {
+	sum := func(code uint64) mh.Multihash { h, _ := mh.Sum(body, code, -1); return h }
+	canon := cid.NewCidV1(uint64(multicodec.DagCbor), sum(mh.SHA2_256))
+	enc := func(c cid.Cid, b multibase.Encoding) string { s, _ := c.StringOfBase(b); return s }
+	switch kind % 8 {
+	case 0:
+		return enc(canon, multibase.Base32Upper)
+	case 1:
+		return enc(canon, multibase.Base58BTC)
+	case 2:
+		return enc(canon, multibase.Base16)
+	case 3:
+		return cid.NewCidV1(uint64(multicodec.Raw), sum(mh.SHA2_256)).String()
+	case 4:
+		return cid.NewCidV1(uint64(multicodec.DagCbor), sum(mh.SHA2_512)).String()
+	case 5:
+		return cid.NewCidV0(sum(mh.SHA2_256)).String()
+	case 6:
+		return cid.NewCidV1(uint64(multicodec.DagPb), sum(mh.SHA2_256)).String()
+	default:
+		return enc(canon, multibase.Base64url)
+	}
+}
+
+func init() {
+	// genuine changes (re-signed by their author) that name an ACL record / a parent by a
+	// NON-canonical spelling of its id: the record / parent "exists" only under its one id
+	mutators = append(mutators,
+		mutator{"aclhead-alias-resign-author", func(tc *treeCase, v *parsed, fix bool) *rawCh {
+			if v.acc >= 1000 || tc.w.accts[v.acc].keys == nil || tc.recvK == 0 {
+				return nil
+			}
+			rec := tc.w.recs[tc.r.Intn(tc.recvK)]
+			pl := reTree(v, func(ch *treechangeproto.TreeChange) { ch.AclHeadId = aliasId(tc.r.Intn(3), rec.Payload) })
+			return tc.finishMut(v, pl, tc.sign(tc.w.accts[v.acc], pl), true, "aclhead-alias-resign-author")
+		}},
+		mutator{"parent-alias-resign-author", func(tc *treeCase, v *parsed, fix bool) *rawCh {
+			if v.acc >= 1000 || tc.w.accts[v.acc].keys == nil {
+				return nil
+			}
+			for _, k := range sortedKeys(tc.attached) {
+				par := tc.attached[k]
+				pl := reTree(v, func(ch *treechangeproto.TreeChange) { ch.TreeHeadIds = []string{aliasId(tc.r.Intn(3), par.body)} })
+				return tc.finishMut(v, pl, tc.sign(tc.w.accts[v.acc], pl), true, "parent-alias-resign-author")
+			}
+			return nil
+		}})
+	names := []string{"base32upper", "base58btc", "base16", "raw-codec", "sha2-512", "cidv0", "dag-pb", "base64url"}
+	for k := range names {
+		k := k
+		// a GENUINE signed change (bytes untouched) offered under a non-canonical id
+		mutators = append(mutators, mutator{"id-alias-" + names[k], func(tc *treeCase, v *parsed, fix bool) *rawCh {
+			return &rawCh{id: aliasId(k, v.body), body: v.body, label: "id-alias-" + names[k]}
+		}})
+	}
+}
+
 func (tc *treeCase) otherParents(v *parsed) []string {
 	var ids []string
 	for k := range tc.attached {
@@ -437,6 +501,12 @@ func runCase(h *harnessState, w *world, caseNo int) {
 	tc.recvK = n
 	if r.Chance(35) {
 		tc.recvK = 1 + r.Intn(n)
+		if r.Chance(50) && len(w.marks) > 0 {
+			// the next record to arrive is a permission event (grant / demotion / removal / re-add)
+			if k := w.marks[r.Intn(len(w.marks))]; k >= 1 && k < n {
+				tc.recvK = k
+			}
+		}
 	}
 	readdDirected := false
 	if w.hasReadd && r.Chance(55) {
@@ -465,7 +535,8 @@ func runCase(h *harnessState, w *world, caseNo int) {
 		tc.recvKeys = w.byName["z"].keys
 	}
 	stopRecv := timed("receiver")
-	recv, err := w.receiver(tc.recvK, tc.recvKeys)
+	recv, fs, err := w.receiver(tc.recvK, tc.recvKeys)
+	tc.recvStore = fs
 	stopRecv()
 	if err != nil {
 		r.Fatal("receiver ACL: " + err.Error())
@@ -539,6 +610,9 @@ func runCase(h *harnessState, w *world, caseNo int) {
 			tc.add([]*rawCh{bad, other}, "rollback-refused")
 		}
 	}
+	if tc.recvK < n && r.Chance(30) {
+		tc.aclFault() // ACL storage fault right away, on the fresh tree
+	}
 	pool, _ := tc.genPool(tc.attached[tc.rootId])
 
 	// delivery
@@ -546,7 +620,7 @@ func runCase(h *harnessState, w *world, caseNo int) {
 	var delivered []*poolCh
 	var skipped []*poolCh
 	deliver := func(batch []*rawCh, tag string) {
-		if len(batch) == 0 || !r.TimeLeft() {
+		if len(batch) == 0 || !r.TimeLeft() || tc.dead {
 			return
 		}
 		st := tc.add(batch, tag)
@@ -644,6 +718,9 @@ func runCase(h *harnessState, w *world, caseNo int) {
 			// the local path: AddContent by a random account (writers, readers, removed, outsiders)
 			tc.content(tc.pickAuthor(), tc.exotic && r.Chance(30))
 		}
+		if tc.recvK < n && r.Chance(12) && r.TimeLeft() {
+			tc.aclFault()
+		}
 		if r.Chance(10) {
 			tc.reopen("mid")
 		}
@@ -688,7 +765,7 @@ func runCase(h *harnessState, w *world, caseNo int) {
 	if r.Chance(60) || readdDirected {
 		if tc.recvK < n && (r.Chance(70) || readdDirected) {
 			tc.extendAcl(tc.recvK + 1 + r.Intn(n-tc.recvK))
-			if tc.reopen("after-acl-growth") && len(pool) > 0 && r.TimeLeft() {
+			if !tc.dead && tc.reopen("after-acl-growth") && len(pool) > 0 && r.TimeLeft() {
 				// one more batch after the growth: changes citing freshly known records
 				hd := tc.tree.Heads()
 				raw := tc.buildChange(tc.pickAuthor(), tc.pickRecord(0, true), hd, tc.rootId)
@@ -722,11 +799,11 @@ func runValidateCase(h *harnessState, w *world) {
 		tc.recvK = 1 + r.Intn(n)
 	}
 	tc.recvKeys = w.byName["o"].keys
-	recv, err := w.receiver(tc.recvK, tc.recvKeys)
+	recv, fs, err := w.receiver(tc.recvK, tc.recvKeys)
 	if err != nil {
 		r.Fatal("receiver ACL: " + err.Error())
 	}
-	tc.recv = recv
+	tc.recv, tc.recvStore = recv, fs
 	tc.ask("reset")
 	if got := tc.ask(tc.aclLine()); got != "ok" {
 		r.Fatal("model rejected acl line: " + got)
